@@ -693,11 +693,11 @@ class Batch:
         self.items.append({"g": g, "flags": list(flags), "text": text, "fname": fname, "dir": d})
         return i
 
-    def _gen_one(self, it):
+    def _gen_one(self, it, timeout=30):
         cmd = [self.gocc] + it["flags"] + ["-o", "out", it["fname"]]
         try:
             p = subprocess.run(cmd, cwd=it["dir"], stdout=subprocess.PIPE, stderr=subprocess.PIPE,
-                               timeout=30, env=C.GOENV)
+                               timeout=timeout, env=C.GOENV)
             it["rc"], it["out"], it["err"], it["hang"] = p.returncode, p.stdout.decode("utf-8", "replace"), p.stderr.decode("utf-8", "replace"), False
         except subprocess.TimeoutExpired:
             it["rc"], it["out"], it["err"], it["hang"] = -9, "", "", True
@@ -705,6 +705,12 @@ class Batch:
     def generate(self):
         with ThreadPoolExecutor(max_workers=16) as ex:
             list(ex.map(self._gen_one, [it for it in self.items if "rc" not in it]))
+        # a run that exceeded the limit while sixteen others were competing for the machine is repeated alone with a
+        # generous limit before it is called a hang (gocc needs 0.1 s for these grammars on an idle machine)
+        for it in self.items:
+            if it.get("hang"):
+                shutil.rmtree(os.path.join(it["dir"], "out"), ignore_errors=True)
+                self._gen_one(it, timeout=300)
 
     def has(self, i, pkg):
         return os.path.isdir(os.path.join(self.items[i]["dir"], "out", pkg))
